@@ -16,7 +16,8 @@ VARIABLES kind, s, a, b, c, d
 vars == <<kind, s, a, b, c, d>>
 
 \* the last edge may be the element type's maximum itself (an edge equal to a value at the end of the range)
-Edges == {0, 1, 2, 3, 4, TMAX}
+\* ... and the first edge the type's minimum (with open outer bounds the first interval is then empty above nothing)
+Edges == {TMIN, 0, 1, 2, 3, 4, TMAX}
 AscSeqs == {SetToSortSeq(es, LAMBDA x, y : x < y) : es \in SUBSET Edges}
 CutVals == <<TMIN, 0 - 1, 0, 1, 2, 3, 4, 5, TMAX, NULL>>
 CutSeqVals == {0, 1, 2, 3, 4, 5, NULL}
